@@ -250,10 +250,9 @@ func c06CTA(rc *RuleCtx) {
 				if s.del {
 					what = "delete"
 				}
+				// the key names the operation, the kind of update and the map: not the primitive it goes through (a
+				// primitive written out at its call site is the same update)
 				base := fmt.Sprintf("%s %s %s.%s", funcName(f), what, prettyKey(s.obj), s.field)
-				if s.via != "" {
-					base += " via " + s.via
-				}
 				seq[base]++
 				cons := base
 				if seq[base] > 1 {
